@@ -14,7 +14,8 @@ GARBAGE = ['[1.5] wl_foo@3.bar(', '[1.5]  -> @3.bar()', '[x] a@1.b()', '[1.5] a@
            '[1.5] a@1.b(new id @3)', '[1.5] a@1.b(new id x@)', '\x1b[31m[1.5] a@1.b()\x1b[0m', '[1.5] a@1.b(\x1b[0m)',
            '[1.5] wl_display@1.error(nil, 1, "x")', '[1.5] wl_display@1.delete_id(1)', '[1.5] wl_display@1.delete_id(-4)',
            '[99999999999999999999.5] a@1.b()', '[1.5] a@1.b(1e999)', '[1.5] a@1.b(-1e999, 5)', '[1.5] wl_surface@3.damage(1e999, 1, 2, 3)',
-           '[1.5] a@1.b(1e-999, 0e0, 1E5, 12e+3)', '[1.5] a@1.b(new id [unknown]@3)', '[1.5] a@1.b(new id [unknown]@3, "s")', '[1.5] wl_pointer@3.button(1, 2, 272, 1, 5, 6, 7)']
+           '[1.5] a@1.b(1e-999, 0e0, 1E5, 12e+3)', '[1.5] a@1.b(new id [unknown]@3)', '[1.5] a@1.b(new id [unknown]@3, "s")', '[1.5] wl_pointer@3.button(1, 2, 272, 1, 5, 6, 7)',
+           '[1.5] a@1.b(-0.0, 0.0)', '[1.5] a@1.b(0.0, -0.0)', '[1.5] a@1.b(-0.000000)', '[1.5] a@1.b(1, 1.0, "1")']
 
 
 def apply_line_faults(lines, faults, counts=None):
